@@ -116,21 +116,22 @@ type hcStep struct {
 func (s hcStep) String() string { return s.op + "=>" + strings.Join(s.evs, ",") }
 
 type hcScript struct {
-	respStream bool
-	steps      []hcStep
-	hung       bool
-	panics     []string
-	stillBusy  []string
-	supplied   []int  // decodable data messages supplied, in order
-	delivered  []int  // messages RecvMsg returned
-	finals     []string
-	trailerOK  bool   // a decodable trailer with code 0 was supplied
-	truncated  bool   // the body ended (or failed) before a decodable OK trailer
-	cancelled  bool
-	cancelKind string
-	tooMany    bool     // a RecvMsg reported the "server sent >1" protocol violation
-	afterMany  []string // results of the RecvMsg calls that came after that verdict
-	recvAll    []string // every RecvMsg result in order
+	respStream  bool
+	steps       []hcStep
+	hung        bool
+	panics      []string
+	stillBusy   []string
+	supplied    []int // decodable data messages supplied, in order
+	delivered   []int // messages RecvMsg returned
+	finals      []string
+	trailerOK   bool // a decodable trailer with code 0 was supplied
+	truncated   bool // the body ended (or failed) before a decodable OK trailer
+	cancelled   bool
+	cancelKind  string
+	tooMany     bool     // a RecvMsg reported the "server sent >1" protocol violation
+	afterMany   []string // results of the RecvMsg calls that came after that verdict
+	recvAll     []string // every RecvMsg result in order
+	afterCancel []string // results of RecvMsg calls issued after the script ended the context
 }
 
 func (sc *hcScript) line() string {
@@ -316,6 +317,9 @@ func runHCScript(rng *Rng, respStream bool, nsteps int, fixed []string) *hcScrip
 			})
 			if res, ok := evRes(st.evs, "cr"); ok {
 				sc.recvAll = append(sc.recvAll, res)
+				if sc.cancelled {
+					sc.afterCancel = append(sc.afterCancel, res)
+				}
 				if sc.tooMany {
 					sc.afterMany = append(sc.afterMany, res)
 				} else if strings.Contains(recvNote, "server sent >1") {
@@ -482,6 +486,15 @@ func hcOracle(r *Run, prop string, sc *hcScript) (nontrivial bool) {
 		}
 	case "C04":
 		nontrivial = sc.cancelled
+		if sc.cancelled && !equalInts(sc.delivered, sc.supplied) {
+			for _, res := range sc.afterCancel {
+				if res == "eof" {
+					r.Violate("http-client/stream/eof-after-cancel-with-missing-data", "never a success with missing data and never a bare io.EOF",
+						sprintf("after the context ended RecvMsg returned io.EOF although only %s of the supplied %s had been delivered", intsStr(sc.delivered), intsStr(sc.supplied)), desc, line)
+					break
+				}
+			}
+		}
 	case "C05":
 		nontrivial = true
 		if len(sc.stillBusy) > 0 {
